@@ -133,6 +133,10 @@ def _angles(ctx, n_random):
     for e in (2, 3, 6, 9, 12, 15, 22, 40, 100, 300):
         out += [10.0**e, -(10.0**e), 1.2345678 * 10.0**e]
     out += [1.7976931348623157e308, -1.7976931348623157e308, 63.9, 64.0, 64.1, -64.1, 2.0**20, 2.0**53, 2.0**53 + 2]
+    # exact float multiples of the doubles pi and 2*pi (k * math.tau is NOT a whole number of turns: the double is 2.4e-16 short)
+    for j in (1, 2, 3, 5, 10, 20, 30, 40, 41, 45, 50, 52, 53, 60, 100):
+        out += [pi * 2.0**j, -pi * 2.0**j, 2 * pi * 2.0**j, 3 * pi * 2.0**j]
+    out += [2 * pi * k_ for k_ in (1, 2, 3, 12, 20, 1000, 12345)]
     out += [math.nextafter(2 * pi, 0), math.nextafter(2 * pi, 7), math.nextafter(pi, 0), math.nextafter(pi, 4),
             math.nextafter(0.0, 1), 5e-324, 2.2250738585072014e-308]
     for _ in range(n_random):
